@@ -45,6 +45,10 @@ class Gen:
         for sid in self.rng.sample(self.regs, k):
             u, v = self.tok(sid)
             out += [sid, u, v]
+            if self.rng.random() < 0.08:
+                # the same component type attached twice to one builder: the second value replaces the first
+                u, v = self.tok(sid)
+                out += [sid, u, v]
         return out
 
     def register(self, sid):
